@@ -62,6 +62,14 @@ InitState(i) ==
    sat     |-> [id \in CatchIds(i) |-> <<>>],
    ndel    |-> 0,
    lstn    |-> [id \in CatchIds(i) |-> 0],   \* "listening" announcements so far
+   armn    |-> [id \in CatchIds(i) |-> 0],   \* tokens that have registered at the catch event so far
+   \* catch events whose listening token was withdrawn by an event-based gateway: the node
+   \* itself still counts as armed (nothing tells it), so the next token to arrive is not
+   \* announced; the node is disarmed by the next event that satisfies it
+   stale   |-> {},
+   \* <<catch node, stage>>: an alternative withdrawn while it was still on its way may yet
+   \* announce its visit ("flow") and arm the node ("arriving") before it notices
+   ghost   |-> {},
    intr    |-> {},        \* <<task, occ>> requests interrupted by a boundary event
    nkill   |-> 0,         \* tokens stopped by an exit answer / exhausted retries
    cancelled |-> FALSE,   \* the instance's context was cancelled
@@ -139,7 +147,12 @@ ArriveMove(s, t) ==
          \* deliveries in flight at that moment race with the arrival
          Mv(Lab("visit", n.id, 0),
             [s EXCEPT !.tok = AddToks(rest, {[t EXCEPT !.at = n.id, !.st = "arriving"]}),
-                      !.inbox[n.id] = [k \in DOMAIN @ |-> IF @[k].done THEN @[k] ELSE [@[k] EXCEPT !.racy = TRUE]]])
+                      \* (a delivery that had returned before this token arrived is OLD for it: should the
+                      \* node work it off only now it must not release the token -- "later deliveries of
+                      \* the losing events have no effect")
+                      !.inbox[n.id] = [k \in DOMAIN @ |-> IF @[k].done
+                                                            THEN (IF {u \in Toks(s) : u.at = n.id /\ u.st = "listen"} = {} /\ ~@[k].racy THEN [@[k] EXCEPT !.old = TRUE] ELSE @[k])
+                                                            ELSE [@[k] EXCEPT !.racy = TRUE]]])
     [] n.kind = "throw" ->
          \* an intermediate throw event lets the token pass (what it throws is
          \* a matter of the process set: ProcessSet / ProcessSetTrace)
@@ -266,13 +279,23 @@ Listeners(s, c) ==
   ELSE {t \in Toks(s) : t.at = c /\ t.st = "listen"}
 Arriving(s, c) == {t \in Toks(s) : t.at = c /\ t.st = "arriving"}
 
+\* index of the first event definition of node n the event matches (0: none)
+DefIndex(n, x) ==
+  LET M == {i \in DOMAIN n.evs : n.evs[i].k = x.k /\ n.evs[i].ref = x.ref}
+  IN  IF M = {} THEN 0 ELSE Min(M)
+
+\* a catch event is ARMED while a token listens at it, and also after its listening token was
+\* withdrawn by an event-based gateway (nothing tells the node): an armed node works off the
+\* events handed to it, observably, whether or not a token is there
+Armed(s, c) == Listeners(s, c) # {} \/ c \in s.stale
+
 Deliver(s, k, ref) ==
   LET id == s.ndel + 1 IN
   [s EXCEPT !.ndel = id,
             !.inbox = [c \in DOMAIN @ |->
                \* a boundary event is offered the event only while its host waits
                IF Node(s.p, c).kind = "boundary" /\ Listeners(s, c) = {} THEN @[c]
-               ELSE Append(@[c], [k |-> k, ref |-> ref, id |-> id, done |-> FALSE,
+               ELSE Append(@[c], [k |-> k, ref |-> ref, id |-> id, done |-> FALSE, old |-> FALSE,
                                   \* (a boundary event that has not announced it listens yet
                                   \* is still being armed: the delivery races with that)
                                   racy |-> Arriving(s, c) # {} \/ (Node(s.p, c).kind = "boundary" /\ s.lstn[c] = 0),
@@ -299,11 +322,6 @@ Processable(s, c) ==
   {j \in DOMAIN s.inbox[c] :
      \A i \in DOMAIN s.inbox[c] : s.inbox[c][i].id \notin s.inbox[c][j].after}
 
-
-\* index of the first event definition of node n the event matches (0: none)
-DefIndex(n, x) ==
-  LET M == {i \in DOMAIN n.evs : n.evs[i].k = x.k /\ n.evs[i].ref = x.ref}
-  IN  IF M = {} THEN 0 ELSE Min(M)
 
 (* Matching state of a (parallel-)multiple catch event: a transcription of   *)
 (* the chain algorithm that Satisfier.tla verifies against the counting      *)
@@ -352,31 +370,35 @@ ObserveMove(s, c, j) ==
       r  == Satisfy(n, s.sat[c], x)
       s1 == [s EXCEPT !.inbox[c] = RemoveAt(@, j), !.sat[c] = r[2]]
   IN  Mv(LabA("observed", c, IF x.racy THEN 1 ELSE 0, <<x.k, x.ref>>),
-         IF r[1] THEN Caught(s1, c) ELSE s1)
+         IF r[1] THEN (IF x.old THEN [s1 EXCEPT !.stale = @ \ {c}] ELSE Caught([s1 EXCEPT !.stale = @ \ {c}], c)) ELSE s1)
 
 DropMove(s, c, j) == Mv(Tau, [s EXCEPT !.inbox[c] = RemoveAt(@, j)])
 
 EventObsMoves(s) ==
-  UNION {{ObserveMove(s, c, j) : j \in Processable(s, c)} : c \in {c \in DOMAIN s.inbox : Listeners(s, c) # {}}}
+  UNION {{ObserveMove(s, c, j) : j \in Processable(s, c)} : c \in {c \in DOMAIN s.inbox : Armed(s, c)}}
 
 \* a finished delivery at a node where nothing listens or is arriving is dropped
 EventDropMust(s) ==
-  UNION {{DropMove(s, c, j) : j \in {j \in Processable(s, c) : s.inbox[c][j].done /\ ~s.inbox[c][j].racy}}
-           : c \in {c \in DOMAIN s.inbox : Listeners(s, c) = {} /\ Arriving(s, c) = {}}}
+  UNION {{DropMove(s, c, j) : j \in {j \in Processable(s, c) :
+             s.inbox[c][j].done /\ ~s.inbox[c][j].racy /\ (Arriving(s, c) = {} \/ s.inbox[c][j].old)}}
+           : c \in {c \in DOMAIN s.inbox : ~Armed(s, c)}}
 \* an unfinished or racing delivery may be dropped at any time
 EventDropMay(s) ==
   UNION {{DropMove(s, c, j) : j \in {j \in Processable(s, c) :
              \/ s.inbox[c][j].racy
-             \/ (Listeners(s, c) = {} /\ ~(s.inbox[c][j].done /\ Arriving(s, c) = {}))}}
+             \/ (~Armed(s, c) /\ ~(s.inbox[c][j].done /\ Arriving(s, c) = {}))}}
            : c \in DOMAIN s.inbox}
 
 \* an arrived token starts listening; the engine announces it unless the node
 \* is already listening
 ListenMoves(s) ==
-  { Mv(IF Listeners(s, t.at) = {} THEN Lab("listening", t.at, 0) ELSE Tau,
+  { Mv(IF Listeners(s, t.at) = {} /\ t.at \notin s.stale THEN Lab("listening", t.at, 0) ELSE Tau,
        [s EXCEPT !.tok = AddToks(DelTok(@, t), {[t EXCEPT !.st = "listen"]}),
-                 !.lstn[t.at] = IF Listeners(s, t.at) = {} THEN @ + 1 ELSE @])
-    : t \in {u \in Toks(s) : u.st = "arriving"} }
+                 !.armn[t.at] = @ + 1,
+                 !.lstn[t.at] = IF Listeners(s, t.at) = {} /\ t.at \notin s.stale THEN @ + 1 ELSE @])
+    \* (the node works its inbox off in order: deliveries that had returned before the token
+    \* arrived come first)
+    : t \in {u \in Toks(s) : u.st = "arriving" /\ \A j \in DOMAIN s.inbox[u.at] : ~s.inbox[u.at][j].old} }
 
 \* the boundary events of an activity are armed (and announce it, once) when
 \* the activity is first activated
@@ -390,7 +412,10 @@ ArmMoves(s) ==
 DetermineMoves(s) ==
   { Mv(Lab("determination", w.via, 0),
        [s EXCEPT !.tok = [u \in {v \in DOMAIN @ : v.race # w.race} \cup {[w EXCEPT !.st = "in", !.race = 0, !.via = ""]} |->
-                            IF u \in DOMAIN @ /\ u.race # w.race THEN @[u] ELSE 1]])
+                            IF u \in DOMAIN @ /\ u.race # w.race THEN @[u] ELSE 1],
+                 !.stale = @ \cup {u.at : u \in {v \in Toks(s) : v.race = w.race /\ v # w /\ v.st = "listen"}},
+                 !.ghost = @ \cup {<<Flow(s.p, u.at).dst, "flow">> : u \in {v \in Toks(s) : v.race = w.race /\ v # w /\ v.st = "flow"}}
+                             \cup {<<u.at, "arriving">> : u \in {v \in Toks(s) : v.race = w.race /\ v # w /\ v.st = "arriving"}}])
     : w \in {u \in Toks(s) : u.st = "cand"} }
 
 (* Environment: answering a task request.  Only declared result names are    *)
